@@ -310,6 +310,37 @@ TextToCommand(args, hashes) ==
         Count |-> (IF cnt > 0 THEN cnt - 1 ELSE 0) % 65536,
         Rcount |-> (IF rc > 0 THEN rc - 1 ELSE 0) % 256]
 
+\* Value options of the text form (textcommand.go ConvertTextLockAndUnLockCommand): the command carries a value
+\* frame (FLAG 0x20) built from the option's value:  SET v / APPEND v / PUSH v -> the bytes of v with command type
+\* SET (0) / APPEND (3) / PUSH (7);  UNSET x -> the empty UNSET (1) frame;  INCR n -> command type INCR (2), value
+\* type NUMBER, the 8-byte little-endian integer.  (At most one value option per command is considered.)
+K_SET == <<83, 69, 84>>                           K_UNSET == <<85, 78, 83, 69, 84>>
+K_INCR == <<73, 78, 67, 82>>                      K_APPEND == <<65, 80, 80, 69, 78, 68>>
+K_PUSH == <<80, 85, 83, 72>>
+ValueOptions == {K_SET, K_UNSET, K_INCR, K_APPEND, K_PUSH}
+ValueOptPositions(args) == {i \in OptPositions(args) : UpperS(args[i]) \in ValueOptions}
+
+TextWellFormedV(args) ==
+    /\ Len(args) >= 2 /\ Len(args) % 2 = 0
+    /\ UpperS(args[1]) \in {K_LOCK, K_UNLOCK}
+    /\ Cardinality(ValueOptPositions(args)) <= 1
+    /\ \A i \in OptPositions(args) :
+          /\ UpperS(args[i]) \in {K_LOCK_ID, K_FLAG, K_TIMEOUT, K_EXPRIED, K_COUNT, K_RCOUNT, K_WILL} \cup ValueOptions
+          /\ UpperS(args[i]) \notin ({K_LOCK_ID} \cup (ValueOptions \ {K_INCR})) => IsDecimal(args[i + 1])
+
+\* the value frame the command carries (<<>>: none)
+TextValueFrame(args) ==
+    LET P == ValueOptPositions(args) IN
+    IF P = {} THEN <<>>
+    ELSE LET p == Max(P)
+             kw == UpperS(args[p])
+             v == args[p + 1]
+         IN CASE kw = K_SET    -> EncodeValueFrame(0, 0, 0, FALSE, <<>>, v)
+              [] kw = K_UNSET  -> EncodeValueFrame(0, 1, 0, FALSE, <<>>, <<>>)
+              [] kw = K_INCR   -> EncodeValueFrame(0, 2, 1, FALSE, <<>>, LE(DecValue(v), 8))
+              [] kw = K_APPEND -> EncodeValueFrame(0, 3, 0, FALSE, <<>>, v)
+              [] kw = K_PUSH   -> EncodeValueFrame(0, 7, 0, FALSE, <<>>, v)
+
 \* result codes (command.go RESULT_*): every one of them must have a text rendering
 ResultCodes == 0..12
 
@@ -326,5 +357,73 @@ RenderingOK(args, r) ==
     /\ UpperS(args[7]) = K_COUNT /\ args[8] = Dec((r.Count + 1) % 65536)
     /\ UpperS(args[9]) = K_LRCOUNT /\ args[10] = Dec(r.Lrcount)
     /\ UpperS(args[11]) = K_RCOUNT /\ args[12] = Dec((r.Rcount + 1) % 256)
+
+-----------------------------------------------------------------------------
+\* The text reply to a LOCK / UNLOCK as a byte layout (protocol/textcommand.go
+\* WriteTextLockAndUnLockCommandResult; the README lists the first twelve elements):
+\*
+\*    *<n> CRLF  <twelve bulk strings, RenderingOK>  [ $4 CRLF DATA CRLF  <data element> ]
+\*
+\* n = 12 for a result without value frame, n = 14 for a result that carries one (result FLAG 0x20): the DATA
+\* pair is present iff the result carries a value frame, and n counts exactly the elements that follow.
+\* The data element renders the VALUE of the frame (the bytes behind the header and the property block;
+\* nothing for an UNSET frame) by the frame's value-type flag:
+\*    number (0x01)  :<decimal of the little-endian integer> CRLF
+\*    array  (0x02)  *<k> CRLF and the k non-empty items as bulk strings
+\*    kv     (0x04)  *<2k> CRLF key, value, ... as bulk strings (order of the pairs not fixed)
+\*    otherwise      one bulk string
+K_DATA == <<68, 65, 84, 65>>
+CRLF == <<CR, LF>>
+RBulk(a) == <<DOLLAR>> \o Dec(Len(a)) \o CRLF \o a \o CRLF
+RECURSIVE RBulks(_)
+RBulks(xs) == IF xs = <<>> THEN <<>> ELSE RBulk(Head(xs)) \o RBulks(Tail(xs))
+
+VALUE_TYPE_NUMBER == 1   VALUE_TYPE_ARRAY == 2   VALUE_TYPE_KV == 4   DATA_COMMAND_UNSET == 1
+
+\* the value a frame carries
+FrameValue(fr) == LET d == DecodeValueFrame(fr) IN IF d.ctype = DATA_COMMAND_UNSET THEN <<>> ELSE d.data
+
+\* little-endian integer in the first (at most eight) bytes; representable here when below 2^31
+IntRepresentable(v) == \A i \in 1..Min2(8, Len(v)) : (i >= 5 => v[i] = 0) /\ (i = 4 => v[i] < 128)
+RECURSIVE IntLE(_)
+IntLE(v) == IF v = <<>> THEN 0 ELSE v[1] + 256 * IntLE(Tail(v))
+
+\* items of an array / kv payload: | len:4 LE | bytes | ..., empty items skipped (GetArrayValue)
+RECURSIVE PayloadItems(_)
+PayloadItems(v) ==
+    IF Len(v) <= 4 THEN <<>>
+    ELSE LET n == v[1] + 256 * v[2] + 65536 * v[3] + 16777216 * v[4] IN
+         IF n = 0 THEN PayloadItems(SubSeq(v, 5, Len(v)))
+         ELSE IF 4 + n > Len(v) THEN <<>>
+         ELSE <<SubSeq(v, 5, 4 + n)>> \o PayloadItems(SubSeq(v, 5 + n, Len(v)))
+
+\* an array / kv payload is well typed when it is exactly a sequence of complete items
+RECURSIVE PayloadWellTyped(_)
+PayloadWellTyped(v) ==
+    IF v = <<>> THEN TRUE
+    ELSE IF Len(v) < 4 THEN FALSE
+    ELSE LET n == v[1] + 256 * v[2] + 65536 * v[3] IN
+         v[4] = 0 /\ 4 + n <= Len(v) /\ PayloadWellTyped(SubSeq(v, 5 + n, Len(v)))
+ValueWellTyped(fr) ==
+    LET d == DecodeValueFrame(fr) IN
+    (~HasBit(d.flag, VALUE_TYPE_NUMBER) /\ (HasBit(d.flag, VALUE_TYPE_ARRAY) \/ HasBit(d.flag, VALUE_TYPE_KV))) => PayloadWellTyped(FrameValue(fr))
+
+\* [fixed |-> whether the layout below is the only admissible one, bytes |-> the element]
+\* (a value that is not well typed has no defined rendering: not fixed)
+DataElement(fr) ==
+    LET d == DecodeValueFrame(fr)
+        v == FrameValue(fr)
+    IN IF HasBit(d.flag, VALUE_TYPE_NUMBER)
+       THEN IF IntRepresentable(v) THEN [fixed |-> TRUE, bytes |-> <<COLON>> \o Dec(IntLE(SubSeq(v, 1, Min2(4, Len(v))))) \o CRLF]
+            ELSE [fixed |-> FALSE, bytes |-> <<>>]
+       ELSE IF HasBit(d.flag, VALUE_TYPE_ARRAY)
+       THEN LET it == PayloadItems(v) IN [fixed |-> PayloadWellTyped(v), bytes |-> <<STAR>> \o Dec(Len(it)) \o CRLF \o RBulks(it)]
+       ELSE IF HasBit(d.flag, VALUE_TYPE_KV)
+       THEN LET it == PayloadItems(v) IN [fixed |-> PayloadWellTyped(v) /\ Len(it) <= 2, bytes |-> <<STAR>> \o Dec(Len(it)) \o CRLF \o RBulks(it)]
+       ELSE [fixed |-> TRUE, bytes |-> RBulk(v)]
+
+\* the tail of the reply behind the twelve elements, for a result whose value frame is fr (<<>>: no frame)
+DataTail(fr) == IF fr = <<>> THEN <<>> ELSE RBulk(K_DATA) \o DataElement(fr).bytes
+AnnouncedElements(fr) == IF fr = <<>> THEN 12 ELSE 14
 
 =============================================================================
